@@ -119,7 +119,12 @@ def pre_smooth(w, X):
     return [fin(e0, e1, x), z3.fpLT(e0, e1), fin(z3.fpSub(RNE, x, e0)), fin(z3.fpSub(RNE, e1, e0))]
 def sp_smooth_ends(w, X, O):
     e0, e1, x = [F(v) for v in X]
-    return [('zero-below', z3.Implies(z3.fpLEQ(x, e0), z3.fpEQ(O.fp, K(0, w)))), ('one-above', z3.Implies(z3.fpGEQ(x, e1), ident(O.fp, K(1, w))))]
+    ordered = z3.fpGEQ(z3.fpSub(RNE, x, e0), z3.fpSub(RNE, e1, e0))      # monotonicity of the rounded subtraction is a theorem of IEEE arithmetic the solvers do not decide in time
+    return [('zero-below', z3.Implies(z3.fpLEQ(x, e0), z3.fpEQ(O.fp, K(0, w)))),
+            ('one-above-given-ordered-differences', z3.Implies(z3.And(z3.fpGEQ(x, e1), ordered), ident(O.fp, K(1, w))))]
+def sp_smooth_formula(w, X, O):
+    e0, e1, x = [F(v) for v in X]; t = g_clamp(z3.fpDiv(RNE, z3.fpSub(RNE, x, e0), z3.fpSub(RNE, e1, e0)), K(0, w), K(1, w))       # GLSL: t = clamp((x-edge0)/(edge1-edge0), 0, 1); t*t*(3-2*t)
+    return [('formula', ident(O.fp, z3.fpMul(RNE, z3.fpMul(RNE, t, t), z3.fpSub(RNE, K(3, w), z3.fpMul(RNE, K(2, w), t)))))]
 def sp_smooth_range(w, X, O): return [('ge-zero', z3.fpGEQ(O.fp, K(0, w))), ('le-one', z3.fpLEQ(O.fp, K(1, w)))]
 def mix_formula(x, y, a, w): return z3.fpAdd(RNE, z3.fpMul(RNE, x, z3.fpSub(RNE, K(1, w), a)), z3.fpMul(RNE, y, a))     # GLSL: x*(1-a) + y*a
 def sp_mix(w, X, O):
@@ -244,22 +249,23 @@ def eh_smooth_range(S, w, upper=True):
         return hy, cuts
     return eh
 def eh_mirror(S, w):
-    """cut at c = mod(floor(g), 2) with g = |x|: the executed term fl - 2*floor(fl/2) is shown to be 1 for odd fl = floor(g) and 0 for even fl, for every finite g >= 0,
-    and is then replaced by a fresh float c constrained by exactly that"""
+    """cut at c = mod(floor(g), 2) with g = |x|: the executed term fl - 2*floor(fl/2) (in whatever form the compiler left it, e.g. fl*0.5) is shown to be 1 for odd
+    fl = floor(g) and 0 for even fl, for every finite g >= 0, and is then replaced by a fresh float c constrained by exactly that"""
     def eh(res):
-        cuts = []; hy = []; seen = set()
+        cuts = []; hy = []; seen = set(); RTI = z3.Z3_OP_FPA_ROUND_TO_INTEGRAL
         for r0 in out_fps(res):
-            for D in find_kind(r0, z3.Z3_OP_FPA_DIV):
-                FL = D.arg(1)
-                if FL.decl().kind() != z3.Z3_OP_FPA_ROUND_TO_INTEGRAL: continue
-                G = FL.arg(1)
-                subs = [x for x in find_kind(r0, z3.Z3_OP_FPA_SUB) if x.arg(1).eq(FL) and contains(x, D)]
-                if len(subs) != 1 or subs[0].get_id() in seen: continue
-                C = subs[0]; seen.add(C.get_id()); g = z3.FP('lem_g', FSORT[w]); Ca = z3.substitute(C, (G, g)); FLa = z3.substitute(FL, (G, g))
-                if [x.get_id() for x in free_consts(Ca)] != [g.get_id()]: continue
-                if _cached(S, ('par', w, Ca.sexpr()), lambda: lemma(S, 'floor-mod-two-is-parity', Ca == z3.If(odd_integral(FLa, w), K(1, w), K(0, w)), [fin(g), z3.fpGEQ(g, K(0, w))], S.cap(200, 600), w)):
-                    c = fresh_fp(S, w, 'cut_parity'); cuts.append((C, c))
-                    hy.append(z3.Implies(z3.And(fin(G), z3.fpGEQ(G, K(0, w))), c == z3.If(odd_integral(FL, w), K(1, w), K(0, w))))
+            rtis = find_kind(r0, RTI)
+            inner = [x for x in rtis if not find_kind(x.arg(1), RTI)]
+            outer = [x for x in rtis if find_kind(x.arg(1), RTI)]
+            if len(inner) != 1 or len(outer) != 1 or not contains(outer[0], inner[0]): continue
+            FL, FL2 = inner[0], outer[0]; G = FL.arg(1)
+            cands = [x for x in find_kind(r0, z3.Z3_OP_FPA_ADD) + find_kind(r0, z3.Z3_OP_FPA_SUB) if any(c_.eq(FL) for c_ in x.children()) and contains(x, FL2)]
+            if len(cands) != 1 or cands[0].get_id() in seen: continue
+            C = cands[0]; seen.add(C.get_id()); g = z3.FP('lem_g', FSORT[w]); Ca = z3.substitute(C, (G, g)); FLa = z3.substitute(FL, (G, g))
+            if [x.get_id() for x in free_consts(Ca)] != [g.get_id()]: continue
+            if _cached(S, ('par', w, Ca.sexpr()), lambda: lemma(S, 'floor-mod-two-is-parity', Ca == z3.If(odd_integral(FLa, w), K(1, w), K(0, w)), [fin(g), z3.fpGEQ(g, K(0, w))], S.cap(200, 600), w)):
+                c = fresh_fp(S, w, 'cut_parity'); cuts.append((C, c))
+                hy.append(z3.Implies(z3.And(fin(G), z3.fpGEQ(G, K(0, w))), c == z3.If(odd_integral(FL, w), K(1, w), K(0, w))))
         return hy, cuts
     return eh
 
@@ -278,10 +284,10 @@ REGIONS = {'roundeven_bad': _roundeven_region, 'iround_bad': _iround_region}
 # ----------------------------------------------------------------------------- table of functions
 class E:
     def __init__(s, name, args, out, call, spec, pre=None, variants=(), known=(), side=True, types=('f32', 'f64'), bounds='', mut=None, Ls=(1, 2, 3, 4), body_s=None, body_v=None,
-                 timeout=None, mandatory=True, heavy=False, group=None, eh=None):
+                 timeout=None, mandatory=True, heavy=False, group=None, eh=None, alias=None):
         s.name = name; s.args = args; s.out = out if isinstance(out, (list, tuple)) else [out]; s.multi = isinstance(out, (list, tuple)); s.call = call; s.spec = spec; s.pre = pre
         s.variants = variants; s.known = list(known); s.side = side; s.types = types; s.bounds = bounds; s.mut = mut; s.Ls = Ls; s.body_s = body_s; s.body_v = body_v
-        s.timeout = timeout; s.mandatory = mandatory; s.heavy = heavy; s.group = group or name; s.eh = eh
+        s.timeout = timeout; s.mandatory = mandatory; s.heavy = heavy; s.group = group or name; s.eh = eh; s.alias = alias
 def ct(a, t): return FT[t][0] if a == 'T' else a
 TAB = []
 def add(*a, **k): TAB.append(E(*a, **k))
@@ -319,6 +325,9 @@ add('clamp', ['T', 'T', 'T'], 'T', 'glm::clamp({0}, {1}, {2})', sp_clamp, varian
 add('saturate', ['T'], 'T', 'glm::saturate({0})', sp_saturate, variants=('v',), Ls=(2, 3, 4), bounds='all x', group='compat')
 add('step', ['T', 'T'], 'T', 'glm::step({0}, {1})', sp_step, variants=('vv', 'sv'), bounds='all edge, x incl. NaN', mut=lambda w, X, O: [('m', ident(O.fp, z3.If(z3.fpLEQ(F(X[1]), F(X[0])), K(0, w), K(1, w))))])
 add('smoothstep', ['T', 'T', 'T'], 'T', 'glm::smoothstep({0}, {1}, {2})', sp_smooth_ends, pre=pre_smooth, variants=('vvv', 'ssv'), bounds='finite, edge0 < edge1, differences do not overflow', timeout=(120, 400), eh=eh_smooth_div)
+add('smoothstep_formula', ['T', 'T', 'T'], 'T', 'glm::smoothstep({0}, {1}, {2})', sp_smooth_formula, variants=('vvv', 'ssv'), bounds='IEEE evaluation of the GLSL formula, all operands', timeout=(120, 400), group='smoothstep')
+add('smoothstep_at_edge1', ['T', 'T', 'T'], 'T', 'glm::smoothstep({0}, {1}, {2})', lambda w, X, O: [('one-at-edge-one', ident(O.fp, K(1, w)))], pre=pre_smooth, variants=('vvv', 'ssv'), alias=(2, 1),
+    bounds='x = edge1 (same value passed twice), finite, edge0 < edge1, difference does not overflow', timeout=(120, 400), eh=eh_smooth_div, group='smoothstep')
 add('smoothstep_range', ['T', 'T', 'T'], 'T', 'glm::smoothstep({0}, {1}, {2})', lambda w, X, O: sp_smooth_range(w, X, O)[:1 if w == 64 else 2], pre=pre_smooth, variants=('vvv',),
     bounds='finite, edge0 < edge1, differences do not overflow; double: only >= 0', timeout=(120, 400), eh=lambda S, w: eh_smooth_range(S, w, upper=(w == 32)))
 add('smoothstep_le_one', ['T', 'T', 'T'], 'T', 'glm::smoothstep({0}, {1}, {2})', lambda w, X, O: sp_smooth_range(w, X, O)[1:], pre=pre_smooth, types=('f64',), mandatory=False, heavy=True,
@@ -445,7 +454,11 @@ def run_entry(S, e, t, var=None, L=0):
     if e.mut and var is None:
         def mut(i, o): return [('m.' + l, gl) for l, gl in e.mut(w, Xs(i, 0), Os(o, 0))][:1]
     to = S.cap(*e.timeout) if e.timeout else S.cap(60, 240)
-    S.check_fn(U, wname(e, t, var, L), spec, pre, timeout=to, known=e.known, side=e.side, bounds=e.bounds, mutant=mut, mandatory=e.mandatory, extra_hyps=extra)
+    ins = None; kw = {}
+    if e.alias:         # the same symbolic value is passed for two arguments (translator validation by independent sampling is switched off for these)
+        ins = mkvars(U.fns[wname(e, t, var, L)]); dst, src = e.alias
+        ins[dst] = [ins[src][k if len(ins[src]) > 1 else 0] for k in range(len(ins[dst]))]; kw = dict(validate=0)
+    S.check_fn(U, wname(e, t, var, L), spec, pre, ins=ins, **kw, timeout=to, known=e.known, side=e.side, bounds=e.bounds, mutant=mut, mandatory=e.mandatory, extra_hyps=extra)
 def job_group(names, t, Ls, scalar=True):
     def run(S):
         for nm in names:
